@@ -5,10 +5,15 @@
    Boards that compare equal hash equal (C04_eq_boards_eq_hash); every parsed board satisfies the placement
    invariant and carries the from-scratch hash (C04_parse_consistent); make-move keeps both for ordinary
    moves, promotions, castling and en passant under the local placement conditions a legal move has
-   (C04_apply_consistent).  OPEN: is_legal on a validated board implies those local conditions
-   (apply_legal_consistent_statement, decided per run). *)
+   (C04_apply_consistent); every move the generator produces satisfies them on a board with the invariant
+   Inv (placement, consistent hash, rights backed by king and rook at home, well-formed marker), and Inv is
+   preserved (InvFacts), so EVERY board reached from a parsed board or the standard position by moves the
+   checked operations accept carries the from-scratch hash (C04_reachable) and boards that compare equal
+   hash equal whatever move order produced them (C04_pure_function).
+   Side conditions of the reachability induction, stated in `Reach`: the mover has a king (kings are never
+   captured: that is C01) and the position owes at most 400 moves (real positions: <= 218). *)
 From Coq Require Import NArith List Bool.
-From Chess Require Import base.Bits base.Types gen.T_zobrist base.BitBoard model.Board model.MoveGen model.Apply model.Fen proofs.ZobristFacts proofs.HashFacts.
+From Chess Require Import base.Bits base.Types gen.T_zobrist base.BitBoard model.Board model.MoveGen model.Apply model.Fen proofs.ZobristFacts proofs.HashFacts spec.IterSpec proofs.InvFacts proofs.Combine.
 Local Open Scope N_scope.
 
 Theorem C04_keys_distinct_nonzero : NoDup all_keys /\ ~ In 0 all_keys /\ (forall k, In k all_keys -> wf64 k).
@@ -53,5 +58,17 @@ Theorem C04_apply_consistent : forall b m pc, Part b -> b_zob b = scratch_piece_
 Proof. exact apply_consistent_gen. Qed.
 Print Assumptions C04_apply_consistent.
 
-(* what remains: legality on a validated board gives the local conditions above *)
-Definition C04_incremental_statement : Prop := apply_legal_consistent_statement.
+Theorem C04_incremental : forall b m, Part b -> b_zob b = scratch_piece_hash b ->
+  b_rights b < 16 -> (forall f, b_ep b = Some f -> f < 8) -> validate b = None ->
+  (length (content (legals_gen b)) <= 400)%nat -> is_legal b m = true ->
+  Part (apply b m) /\ b_zob (apply b m) = scratch_piece_hash (apply b m).
+Proof. exact apply_legal_consistent_validated. Qed.
+Print Assumptions C04_incremental.
+
+Theorem C04_reachable : forall b, Reach b -> Part b /\ b_zob b = scratch_piece_hash b.
+Proof. exact reach_hash. Qed.
+Print Assumptions C04_reachable.
+
+Theorem C04_pure_function : forall a b, Reach a -> Reach b -> board_eqb a b = true -> zobrist a = zobrist b.
+Proof. exact reach_equal_boards_equal_hash. Qed.
+Print Assumptions C04_pure_function.
